@@ -305,11 +305,14 @@ def check_sac(ck):
     # (policy_frequency, autotune, num_envs, num_steps): the schedule is in ITERATIONS, whatever the number of environment steps per iteration
     cfgs = ((2, True, 1, 1), (1, True, 1, 1), (2, False, 1, 1), (2, True, 2, 1)) if not ck.thorough else \
         ((2, True, 1, 1), (1, True, 1, 1), (3, True, 1, 1), (2, False, 1, 1), (3, False, 1, 1), (2, True, 2, 1), (2, True, 1, 2), (3, True, 3, 1), (2, False, 2, 2))
-    for f, autotune, E, NS in cfgs:
-        algo = SAC(buffer_size=4 * E, learning_starts=1, num_envs=E, num_steps=NS, batch_size=2, q_width_size=2, q_depth=1, tau=tau, policy_frequency=f, autotune=autotune)
+    # a fifth entry gives non-default optimiser arguments: "autotuning off" must hold whatever learning rates were passed
+    cfgs = cfgs + ((2, False, 1, 1, {"alpha_lr": 0.0625}),) + (((1, False, 2, 1, {"alpha_lr": 0.0625, "q_lr": 0.125, "policy_lr": 0.25}),) if ck.thorough else ())
+    for f, autotune, E, NS, *extra in cfgs:
+        extra = extra[0] if extra else {}
+        algo = SAC(buffer_size=4 * E, learning_starts=1, num_envs=E, num_steps=NS, batch_size=2, q_width_size=2, q_depth=1, tau=tau, policy_frequency=f, autotune=autotune, **extra)
         pol = MLPSACPolicy(envb, feature_size=2, width_size=2, depth=1, key=jr.key(0))
         tr, it, S, out = iteration_trace("SAC", algo, envb, pol, cb)
-        cfg = f"f={f},autotune={autotune},E={E},S={NS}"
+        cfg = f"f={f},autotune={autotune},E={E},S={NS}" + "".join(f",{k}={v}" for k, v in extra.items())
         if f == 2 and autotune and E == 1:
             ck.encoded(tr)
         c0 = S["st_iteration_count"][()]
